@@ -503,7 +503,7 @@ class C16(common.Prop):
         be = rng.choice(["np", "torch", "tf"])
         r = rng.random()
         if r < 0.35:
-            n = rng.choice([1, 1, 2, 2, 3, 3, 4, 5, 99, 100, 101, 200])
+            n = rng.choice([1, 1, 2, 2, 3, 3, 4, 5, 99, 100, 101, 200, 256, 257, 300, 1000])      # beyond one byte, beyond CPython's small ints
         else:
             n = rng.randint(1, 200)
         case = {"be": be, "n": n, "shape": [rng.choice([1, 2]), rng.choice([1, 2, 3]), rng.choice([2, 3])],
